@@ -34,7 +34,7 @@ EXPRS = {
     "star-two-seps": "R*[',' ';']", "star-EOLTERM": "R*[EOLTERM]", "star-Eolterm-sep": "R+[',' Eolterm]",
     "asg": "a=INT", "asg-plus": "a+=R", "asg-star": "a*='x'", "asg-bool": "a?=/x/", "asg-ref": "a=[R]", "asg-ref-colon": "a=[R:FQN]",
     "asg-ref-pipe": "a=[R|FQN]", "asg-ref-colon-rrel": "a=[R:FQN|^a]", "asg-ref-pipe-rrel": "a=[R|FQN|^a]", "asg-ref-qual": "a=[p.R]", "asg-ref-qual-deep": "a=[p.q.s.R]", "asg-rule-qual": "a=p.R", "asg-rule-qual-deep": "a+=p.q.R[',']",
-    "rule-qual": "p.q.R", "rule-qual-trailing-dot": "p.R.", "rule-qual-builtin": "ID.x", "asg-ref-qual-dotdot": "a=[p..R]",
+    "rule-qual": "p.q.R", "asg-list-mods-comma": "a+=INT[',', eolterm]", "star-mods-comma": "R*[',', eolterm]", "plus-mods-comma-only": "R+[',' , ';']", "rule-qual-trailing-dot": "p.R.", "rule-qual-builtin": "ID.x", "asg-ref-qual-dotdot": "a=[p..R]",
     "asg-list-ref-sep": "a+=[R][',']", "asg-list-ref-eol": "a*=[R:ID|^a][eolterm]", "asg-mod-sep-eol": "a+=INT[',' eolterm]", "asg-mod-eol-sep": "a+=INT[eolterm ',']",
     "asg-sup": "a=INT-", "ref-INTEGER": "INTEGER", "ref-IDx": "IDx 'a'", "asg-STRINGS": "a=STRINGS", "asg-BOOLEAN-list": "a+=BOOLEAN[',']", "ref-eolterms": "R*[eolterms]", "asg-digit-attr": "1a=INT", "asg-digit-rule": "a=1B", "ref-digit-class": "a=[1B]", "ref-digit-rule": "a=[R:1F]",
 }
